@@ -11,8 +11,10 @@ the exported frames (independent of the Lean model): round trip right after the 
 the history, repeatable reads, filters, a valid call must succeed (the dimension of a mesh is judged from its
 own frame), a failing call - including failures injected into h5py after data were written - must leave a
 recursive dump of the whole file (names, shapes, dtypes, attributes, data) as it was.
-Variable round trips are checked only when the variable comes from the frame its geometry was exported from (and
-that frame is valid).  An injected-failure trial needs the exporter to keep its path in `_file_name`; if it no longer
+Variable round trips are checked whenever the geometry's frame and the variable's frame are both valid (`frame_valid`) and
+- NODE variables - from ANY such frame, or - ELEMENT_NODAL variables - whenever `en_valid(variable frame, geometry frame)`
+holds (distinct (element, node) pairs that are those of whole elements of the geometry, in any row order); the variable's
+frame need not be the frame the geometry was exported from.  An injected-failure trial needs the exporter to keep its path in `_file_name`; if it no longer
 does, the trial is skipped silently (no count)."""
 import copy
 import json
@@ -44,9 +46,10 @@ ELEMENT_TYPES = {(2, 3): 0, (2, 6): 1, (2, 4): 2, (2, 8): 3, (3, 4): 4, (3, 10):
 INT32_MIN, INT32_MAX = -2 ** 31, 2 ** 31 - 1
 NAN = float("nan")
 
-# finding classes tied to an input mechanism (see `mechanism_from`).  Both WERE open known findings; both are fixed in
-# /repo (id-overflow-int32: 0e66e4b, sticky-dimension: ba72c38), so `mechanism_from` is called with an empty set of
-# classes and is inert - a hit of either class is reported as a violation.
+# the FOUR finding classes tied to an input mechanism (see `mechanism_from`).  All were open known findings at some time; all
+# are fixed in /repo (id-overflow-int32: 0e66e4b, sticky-dimension: ba72c38, set-container: 1c1257e - a regression of
+# 0e66e4b -, element-nodal-row-order: 57828f0 - a leftover of c3a1079), so `mechanism_from` is called with an empty set of
+# classes and is inert - a hit of any of them is reported as a violation.
 K_OVERFLOW = "id-overflow-int32"
 K_STICKY = "sticky-dimension"
 K_ROWORDER = "element-nodal-row-order"
@@ -576,9 +579,10 @@ def mechanism_from(case, classes):
     sticky-dimension  - add_geometry of a frame whose own dimension is not 3 (i.e. 2, or None = z differs between the
                         rows of a node) after an add_geometry (whatever its outcome) of a frame whose own dimension
                         is not 2 (i.e. 3 or None): `own_dim(...) == None` counts on both sides.
-    (`Run.export_op` assigns the class sticky-dimension more narrowly: only to a frame whose own dimension IS 2 after
-    a frame whose own dimension is not 2.  The two places do not agree on `None`; that only matters while the class is
-    open, which it is not.)"""
+    (`Run.export_op` assigns the class sticky-dimension more narrowly: only to a frame whose own dimension IS 2 (`d == 2`) after
+    a frame whose own dimension is not 2; here the test is `d != 3`, so a frame with `own_dim(...) == None` that follows a 3D /
+    None frame stops the comparison here but would not get the class there.  The two places do not agree on `None`; the logic is
+    left as it is: it only matters while the class is open, which it is not (fixed by ba72c38, `classes` is empty).)"""
     seen3 = False
     geoms = {}
     for i, op in enumerate(case["ops"]):
@@ -722,6 +726,7 @@ class Run:
         self.info.append(None if exc is None else err_cause(exc))
         self.segs.append(("ok" if exc is None else "err") + ";" + show_snapshot(after))
         d = own_dim(fr) if k == "geom" else None
+        # (`d == 2` here, `d != 3` in `mechanism_from`: the two disagree on own_dim None, see the doc string there; inert)
         sticky = k == "geom" and self.seen3 and d == 2
         if k == "geom" and d != 2:
             self.seen3 = True
@@ -1412,7 +1417,10 @@ def gen_case(rng, tier):
 
 def tiny_cases():
     """Systematic small scope: every supported element type alone and every pair of types of one dimension
-    in one geometry, with a nodal and an element nodal variable, a node set and an element set; contiguous
+    in one geometry, with a nodal and an element nodal variable, a second ELEMENT_NODAL variable `EN2` taken from a second
+    frame (the same mesh rows sorted by (element, node) as `DataFrame.sort_index()` leaves them, other values), a node set
+    and an element set whose ids are handed over in container kinds that rotate through CONTAINERS with the pair number
+    (index, list, tuple, set, frozenset, dict keys, generator, range, Series, ndarray, int32 / float arrays); contiguous
     and interleaved rows; coordinates that are not binary32 values; for 3D once with an ordinary z range and once as
     a thin layer far from the z origin; every exporter call once more with a storage failure injected."""
     out = []
@@ -1547,20 +1555,27 @@ class C20(Prop):
         "refused (/repo commit 0e66e4b; the dimension per geometry is commit ba72c38); the harness reads files with h5py as "
         "well (trusted)",
         "pandas groupby (sorted distinct keys, rows of a group in frame order), GroupBy.first (first non-NaN cell per "
-        "column, NaN if there is none), stable argsort, Index.drop_duplicates, DataFrame.merge / join by key (left order "
+        "column, NaN if there is none), MultiIndex.get_indexer / np.isin (element-nodal export since 57828f0: the position of every "
+        "stored (element, node) pair in the variable's frame, -1 = absent; the elements of the geometry that occur in the frame, in "
+        "stored order), DataFrame.merge / join by key (left order "
         "kept; a frame with distinct (element, node) pairs has no duplicate keys) are modelled by list functions; the "
         "correspondence check compares them with the real calls on this run's inputs",
         "valid mesh frame (the oracle's `frame_valid` / `valid_call`) = non-empty, distinct (element_id, node_id) pairs, "
         "columns x and y present and of a numeric dtype, ids within int32; its dimension is judged from the frame alone (3 iff "
         "a z column is not constant).  The guard `ValidMesh` of the Lean success theorems is weaker: ids within int32, "
         "non-empty only when there is a z column, coordinate columns present and not of object dtype, every element's node "
-        "count a type of the frame's own dimension; distinct pairs are a hypothesis of roundtrip_element_nodal_variable and "
-        "find_own_row only",
-        "a failing add_variable may leave the (empty) state / geometry groups it created under /VMAP/VARIABLES; they "
-        "hold no variable, are not compared and not reported",
+        "count a type of the frame's own dimension; distinct pairs are a separate hypothesis of find_own_row, "
+        "roundtrip_element_nodal_row_found, roundtrip_element_nodal_variable_same_frame, addVariable_succeeds (location 6: of the "
+        "frame the geometry was exported from) and addVariable_succeeds_of_target (location 6: of the variable's frame); "
+        "roundtrip_element_nodal_variable still carries the hypothesis but its proof does not use it",
+        "an add_variable that fails AFTER its argument checks (variable exists already, an ELEMENT_NODAL frame that is not made of whole "
+        "elements of the geometry, a storage failure) may leave the (empty) state / geometry groups it created under /VMAP/VARIABLES; "
+        "they hold no variable, are not compared and not reported.  A call refused by the argument checks (unknown geometry, no column "
+        "names / location, ids outside int32) creates nothing (theorem refused_addVariable_creates_nothing)",
         "not compared with the model (incidental): exception classes, the order and multiplicity of set members in the "
         "file, the row order of a nodal variable's datasets; names with '/' (HDF5 paths) and re-opening an existing file "
-        "with VMAPExport (truncates) are outside the generator",
+        "with VMAPExport (truncates) are outside the generator; NaN / fractional ids in a frame or a set and files whose MYCOORDINATES "
+        "are malformed (neither N x 2 nor N x 3: refused by the importer since c4385c5) are outside both the generator and the model",
     ]
 
     def __init__(self):
@@ -1693,10 +1708,11 @@ class C20(Prop):
             return None
         a = model_out[0].split("|") if model_out else []
         b = impl_out[0].split("|") if impl_out else []
-        # The model describes the repaired code (/repo commits 5bedc75, 810bb8c, c3a1079, 6fd00f9, ba72c38, 0e66e4b).  If one of
-        # the two mechanism classes were an OPEN known finding again, the segments from the first call on which that defect's
+        # The model describes the repaired code (the eight /repo commits 5bedc75, 810bb8c, c3a1079, 6fd00f9, ba72c38, 0e66e4b,
+        # 1c1257e, 57828f0; c4385c5 - import refuses malformed coordinates - has no model counterpart).  If one of the four
+        # mechanism classes were an OPEN known finding again, the segments from the first call on which that defect's
         # input mechanism acts would be the oracle's business (it reports the finding class) and model and code would have to
-        # agree only up to that call.  Both classes are fixed: the set below is empty, `stop` is None, every segment is compared.
+        # agree only up to that call.  All four classes are fixed: the set below is empty, `stop` is None, every segment is compared.
         stop = mechanism_from(case, self._open_classes() & {K_OVERFLOW, K_STICKY, K_ROWORDER, K_CONTAINER})
         if stop is not None:
             a, b = a[:stop], b[:stop]
